@@ -513,7 +513,7 @@ def run_appendonly(cfg, resume):
         if resume:
             c = dict(c, output_dir=tmp, output_label="ao")
             s0 = runs.build(c)[0]
-            s0.run(n_total=c["n_total"], progress=False, save_every=2)
+            s0.run(n_total=c["n_total"], progress=runs.prog(c), save_every=2)
             files = sorted((f for f in os.listdir(tmp) if f.startswith("ao_") and "final" not in f), key=lambda f: int(f.split("_")[1].split(".")[0]))
         s, t, like, pt = runs.build(c)
         with attach.Hooks() as hk:
@@ -523,9 +523,9 @@ def run_appendonly(cfg, resume):
             hk.wrap(StateManager, "commit_current_to_history", after=after_commit)
             attach.iteration_budget(hk, 400)
             if resume and files:
-                s.run(n_total=2 * c["n_total"], progress=False, resume_state_path=os.path.join(tmp, files[len(files) // 2]))
+                s.run(n_total=2 * c["n_total"], progress=runs.prog(c), resume_state_path=os.path.join(tmp, files[len(files) // 2]))
             else:
-                s.run(n_total=c["n_total"], progress=False)
+                s.run(n_total=c["n_total"], progress=runs.prog(c))
         sm = s.state
         T = sm.get_history_length()
         first = T - len(committed)           # batches restored from the checkpoint came before the observed commits
